@@ -6,6 +6,8 @@ import (
 	"math/big"
 	"strconv"
 	"strings"
+
+	"golang.org/x/tools/go/ssa"
 )
 
 var convNames = map[string]types.BasicKind{"int": types.Int, "int8": types.Int8, "int16": types.Int16, "int32": types.Int32, "int64": types.Int64,
@@ -80,6 +82,26 @@ func (sc *Scope) call(e ECall) Val {
 			sc.fail("abytes needs a byte array location")
 		}
 		return Val{T: x.bstrOf(sc.st, sx("mk_slice", loc, c.idx(0), c.idx(int64(n)), c.idx(int64(n)))), Ty: types.Typ[types.String]}
+	case "visited":
+		// visited(k): in a loop invariant of a range over a map, whether the iteration has already produced key k
+		argN(1)
+		if sc.header == nil || sc.frame == nil {
+			sc.fail("visited() is only meaningful in the invariant of a loop over a map")
+		}
+		for _, in := range sc.header.Instrs {
+			if nx, ok := in.(*ssa.Next); ok && !nx.IsString {
+				if rg, ok := nx.Iter.(*ssa.Range); ok {
+					if mt, ok := rg.X.Type().Underlying().(*types.Map); ok {
+						k := sc.eval(e.Args[0])
+						if k.K == "const" {
+							k = sc.convertConst(k, mt.Key())
+						}
+						return boolVal(sx("select", x.get(sc.st, mapVisitedKey(nx.Iter, c.sortOf(mt.Key()))), k.T))
+					}
+				}
+			}
+		}
+		sc.fail("visited() used outside a loop over a map")
 	case "recorded":
 		// recorded("name"): the result most recently returned by a callee whose contract says "option records name"
 		argN(1)
